@@ -7,6 +7,10 @@ package router
 //
 //	route m=<method> p=<pattern> h=<id|nil>  => clean=<path.Clean(p)> ok|dup|badmethod|badpath|empty|err:<..>
 //	req   m=<method> p=<path> n=<repeats>    => clean=<path.Clean(p)> <outcome> [| <outcome>]...
+//	setnf h=<id|nil> | setna h=<id|nil>      => ok     (SetNotFoundHandler / SetNotAllowedHandler, at any time)
+//
+// outcome: h=<id> vars=<k=v,…> | nf=<id> code=<c> | na=<id> code=<c> [allow=<hdr>] | 405 allow=<…> | 404
+// A custom handler whose id is in [400,599] writes that status code, any other writes nothing.
 //
 // A request is served n times (Go map iteration order may differ between runs); the distinct
 // outcomes are printed sorted.
@@ -35,7 +39,7 @@ type c09Gen struct {
 func (g *c09Gen) lit() string {
 	switch g.r.Intn(10) {
 	case 0:
-		return g.r.PickS("ab", "user", "a.b", "a:b", "x", "..a", "a..")
+		return g.r.PickS("ab", "user", "a.b", "a:b", "x", "..a", "a..", "A", "B", "User", "aB", "é", "日本")
 	default:
 		return g.r.PickS("a", "b", "c")
 	}
@@ -204,6 +208,8 @@ func (g *c09Gen) section() verifh.Section {
 	}
 	// requests
 	nreq := r.Range(6, verifh.Scale(24, 40))
+	firstReq := len(ops)
+	custom := r.Chance(1, 3)
 	rep := 4
 	if mode == 1 {
 		rep = 24
@@ -211,7 +217,7 @@ func (g *c09Gen) section() verifh.Section {
 	tok := func() string {
 		switch r.Intn(12) {
 		case 0:
-			return r.PickS("d", "ab", "user", "zz", ":x", "a.b", "x", "...")
+			return r.PickS("d", "ab", "user", "zz", ":x", "a.b", "x", "...", "A", "B", "C", "USER", "User", "Ab", "é", "日本", "e")
 		default:
 			return r.PickS("a", "b", "c")
 		}
@@ -231,6 +237,14 @@ func (g *c09Gen) section() verifh.Section {
 				}
 			}
 			switch y := r.Intn(100); {
+			case y < 6 && len(toks) > 0:
+				// letter case matters: flip one segment
+				k := r.Intn(len(toks))
+				if toks[k] == strings.ToUpper(toks[k]) {
+					toks[k] = strings.ToLower(toks[k])
+				} else {
+					toks[k] = strings.ToUpper(toks[k])
+				}
 			case y < 12 && len(toks) > 0:
 				toks[r.Intn(len(toks))] = tok()
 			case y < 20 && len(toks) > 0:
@@ -256,7 +270,58 @@ func (g *c09Gen) section() verifh.Section {
 		if r.Chance(1, 30) {
 			p = r.PickS("", "a", "a/b", ".", "..", "./a") // not rooted
 		}
+		// custom handlers can be (re)set at any time: SetNotFoundHandler / SetNotAllowedHandler
+		if custom && r.Chance(1, 6) {
+			switch r.Intn(6) {
+			case 0:
+				ops = append(ops, "setnf h=nil")
+			case 1, 2:
+				ops = append(ops, "setnf h="+r.PickS("701", "702", "410"))
+			case 3:
+				ops = append(ops, "setna h=nil")
+			default:
+				ops = append(ops, "setna h="+r.PickS("801", "802", "418"))
+			}
+		}
 		ops = append(ops, fmt.Sprintf("req m=%s p=%s n=%d", m, p, rep))
+	}
+	// late registrations: routes added after requests were already served
+	if r.Chance(1, 4) {
+		for k, n := 0, r.Range(1, 3); k < n; k++ {
+			id++
+			m := regs[r.Intn(len(regs))].m
+			var toks []string
+			if r.Bool() {
+				toks = g.pattern(mode, names)
+			} else {
+				toks = append([]string{}, regs[r.Intn(len(regs))].toks...) // duplicate or other method
+				if r.Bool() {
+					m = c09Methods[r.Intn(len(c09Methods))]
+				}
+			}
+			var inst []string
+			for _, t := range toks {
+				if strings.HasPrefix(t, ":") {
+					inst = append(inst, tok())
+				} else {
+					inst = append(inst, t)
+				}
+			}
+			ins := func(at int, op string) {
+				ops = append(ops[:at], append([]string{op}, ops[at:]...)...)
+			}
+			// the same request before the registration (404/405 then) and after it
+			at := firstReq + r.Intn(len(ops)-firstReq+1)
+			ins(at, fmt.Sprintf("route m=%s p=%s h=%d", m, g.dirty(toks, 12), id))
+			rm := m // a third of these ask with another method: 404 before, 405 after
+			if r.Chance(1, 3) {
+				rm = c09Methods[r.Intn(len(c09Methods))]
+			}
+			if r.Chance(3, 4) {
+				ins(firstReq+r.Intn(at-firstReq+1), fmt.Sprintf("req m=%s p=%s n=%d", rm, g.dirty(inst, 10), rep))
+			}
+			ops = append(ops, fmt.Sprintf("req m=%s p=%s n=%d", rm, g.dirty(inst, 10), rep))
+		}
 	}
 	return verifh.Section{Cfg: fmt.Sprintf("kind=router mode=%d", mode), Ops: ops}
 }
@@ -356,13 +421,34 @@ func TestVerifC09(t *testing.T) {
 	verifh.Run(t, secs, func(cfg verifh.Cfg) (func(op []string) string, func()) {
 		rt := NewRouter()
 		var hits []c09Hit
+		var chits []string
 		mk := func(id int) http.Handler {
 			return http.HandlerFunc(func(w http.ResponseWriter, r *http.Request) {
 				hits = append(hits, c09Hit{id, pathvar.Vars(r)})
 			})
 		}
+		custom := func(kind string, id int) http.Handler {
+			return http.HandlerFunc(func(w http.ResponseWriter, r *http.Request) {
+				chits = append(chits, fmt.Sprintf("%s=%d", kind, id))
+				if id >= 400 && id <= 599 {
+					w.WriteHeader(id)
+				}
+			})
+		}
 		step := func(op []string) string {
 			switch op[0] {
+			case "setnf", "setna":
+				hs := c09Arg(op, "h=")
+				var h http.Handler
+				if hs != "nil" {
+					h = custom(op[0][3:], verifh.Atoi(hs))
+				}
+				if op[0] == "setnf" {
+					rt.SetNotFoundHandler(h)
+				} else {
+					rt.SetNotAllowedHandler(h)
+				}
+				return "ok"
 			case "route":
 				m, p, hs := c09Arg(op, "m="), c09Arg(op, "p="), c09Arg(op, "h=")
 				var h http.Handler
@@ -397,11 +483,17 @@ func TestVerifC09(t *testing.T) {
 					req.URL = &url.URL{Path: p}
 					rec := httptest.NewRecorder()
 					hits = hits[:0]
+					chits = chits[:0]
 					rt.ServeHTTP(rec, req)
 					var o string
 					switch {
-					case len(hits) > 1:
-						o = fmt.Sprintf("several-handlers=%d", len(hits))
+					case len(hits)+len(chits) > 1:
+						o = fmt.Sprintf("several-handlers=%d", len(hits)+len(chits))
+					case len(chits) == 1:
+						o = fmt.Sprintf("%s code=%d", chits[0], rec.Code)
+						if a := rec.Header().Get("Allow"); a != "" {
+							o += " allow=" + strings.ReplaceAll(a, " ", "")
+						}
 					case len(hits) == 1:
 						var kv []string
 						for k, v := range hits[0].vars {
